@@ -1120,27 +1120,72 @@ func c13JSON(p *core.Program, r *core.Report, typesPkg *ssa.Package) {
 		if nm == "Number" {
 			numberArm = body
 		}
-		// the X type returned in the arm
-		for _, ret := range core.Returns(fn) {
-			if !body.Dominates(ret.Block()) {
-				continue
-			}
-			v := ret.Results[0]
-			t := "?"
-			if core.IsNilConst(v) {
-				t = "nil"
-			} else if mi, ok := v.(*ssa.MakeInterface); ok {
-				t = strings.TrimPrefix(core.ShortType(mi.X.Type()), "*")
-				t = t[strings.LastIndex(t, ".")+1:]
-			}
-			if t == "XError" {
-				continue
-			}
-			if got[nm] != "" && got[nm] != t {
-				t = got[nm] + "|" + t
-			}
-			got[nm] = t
+		_ = body
+	}
+	// the X type returned for each value type: every way out of the function with the tests on the value type decided
+	// for that type (early returns in the arms, or one exit with a result variable)
+	var vtParam *ssa.Parameter
+	for _, prm := range fn.Params {
+		if strings.HasSuffix(core.ShortType(prm.Type()), "ValueType") {
+			vtParam = prm
 		}
+	}
+	for k, nm := range names {
+		k := k
+		core.ExplorePaths(fn, core.PathRules{
+			OnBranch: func(s *core.PathState, cond ssa.Value) core.AB {
+				bo, ok := cond.(*ssa.BinOp)
+				if !ok || (bo.Op != token.EQL && bo.Op != token.NEQ) || vtParam == nil {
+					return core.Unk
+				}
+				var other ssa.Value
+				if bo.X == ssa.Value(vtParam) {
+					other = bo.Y
+				} else if bo.Y == ssa.Value(vtParam) {
+					other = bo.X
+				} else {
+					return core.Unk
+				}
+				c, ok := core.ConstInt(other)
+				if !ok {
+					return core.Unk
+				}
+				return boolAB((c == k) == (bo.Op == token.EQL))
+			},
+			OnExit: func(s *core.PathState, ret *ssa.Return, pan *ssa.Panic) {
+				if ret == nil || len(ret.Results) == 0 {
+					return
+				}
+				v := ret.Results[0]
+				for i := 0; i < 4; i++ {
+					phi, ok := v.(*ssa.Phi)
+					if !ok {
+						break
+					}
+					in := pathIncoming(s, phi)
+					if in == nil {
+						break
+					}
+					v = in
+				}
+				t := "?"
+				if core.IsNilConst(v) {
+					t = "nil"
+				} else if mi, ok := v.(*ssa.MakeInterface); ok {
+					t = strings.TrimPrefix(core.ShortType(mi.X.Type()), "*")
+					t = t[strings.LastIndex(t, ".")+1:]
+				}
+				if t == "XError" {
+					return
+				}
+				if got[nm] != "" && got[nm] != t && !strings.Contains("|"+got[nm]+"|", "|"+t+"|") {
+					t = got[nm] + "|" + t
+				} else if got[nm] != "" {
+					t = got[nm]
+				}
+				got[nm] = t
+			},
+		})
 	}
 	for _, nm := range core.SortedKeys(want) {
 		r.Check(got[nm] == want[nm], "R6", "jsonTypeToXValue/"+nm, p.Pos(fn.Pos()), "JSON "+nm+" -> "+want[nm], "a JSON "+nm+" becomes "+got[nm]+" (expected "+want[nm]+"): written back with json() it is not the value that was read")
